@@ -397,7 +397,7 @@ func c15Gen(c *vfCtx, emit func(c15Case)) {
 					if !c.thorough() && pj != pi && (pi+pj)%2 != 0 {
 						continue
 					}
-					for _, kind := range []string{"anymulti", "typemulti"} {
+					for _, kind := range []string{"anymulti", "typemulti", "anymultimap"} {
 						emit(c15Case{Lang: lang, Doc: doc, Path: pi, Path2: pj, Kind: kind, PH: 0, Via: "direct"})
 					}
 				}
@@ -481,7 +481,11 @@ func c15Run(c *vfCtx, cs c15Case) {
 		}
 	}
 	c.addSet("nontrivial", vfHashJSON(cs))
-	if cs.Kind == "anymulti" || cs.Kind == "typemulti" {
+	if cs.Kind == "anymulti" || cs.Kind == "typemulti" || cs.Kind == "anymultimap" {
+		if cs.Kind == "anymultimap" && cs.Lang == "yaml" {
+			// collection placeholders in YAML: only positions where a single-path replacement works are given a verdict (K11 elsewhere)
+			class = "K11-yaml-multiline-placeholder"
+		}
 		c15Multi(c, cs, trees, ps, di, p, path, class)
 		return
 	}
@@ -734,6 +738,36 @@ func c15Multi(c *vfCtx, cs c15Case, trees []*vfNode, ps [][]vfStep, di int, p []
 		m := match.Any(path, path2).Placeholder("PH")
 		jm, ym = m, m
 		ph = c15PHTree("PH")
+	} else if cs.Kind == "anymultimap" {
+		pm := map[string]any{"k": 1, "l": "two"}
+		m := match.Any(path, path2).Placeholder(pm)
+		jm, ym = m, m
+		ph = c15PHTree(pm)
+		if cs.Lang == "yaml" {
+			// reference for the known-finding boundary: each path alone must work with this placeholder
+			for _, single := range []string{path, path2} {
+				out, errs := match.Any(single).Placeholder(pm).YAML([]byte(cs.Doc))
+				if len(errs) > 0 {
+					return
+				}
+				w := make([]*vfNode, len(trees))
+				copy(w, trees)
+				sp := p
+				if single == path2 {
+					sp = p2
+				}
+				w[di] = trees[di].replaced(sp, ph)
+				got, err := c15Tree("yaml", out)
+				same := err == nil && len(got) == len(w)
+				for i := 0; same && i < len(got); i++ {
+					same = got[i].String() == w[i].String()
+				}
+				if !same {
+					return // K11 territory: the single-path replacement is already wrong here
+				}
+			}
+			class = "" // both single-path replacements are right: applying them in one matcher must be right too
+		}
 	} else {
 		if cs.Lang != "json" || target.Kind != "scalar" || !strings.HasPrefix(target.Scalar, "num:") {
 			return
